@@ -396,7 +396,55 @@ func afterMust(c *Ctx, top *ssa.Function, chain []ssa.Instruction, site ssa.Inst
 		success[r] = true
 	}
 	hit := w.FlatReaches(root, pos, &ir.FlatCut{Barrier: req}, func(p ir.FPos) bool {
-		return p.Ctx == pos.Ctx && p.In == pos.In || p.Ctx == root && success[p.In]
+		return p.Ctx == pos.Ctx && p.In == pos.In || p.Ctx == root && success[p.In] && !p.ReturnsFailure()
 	})
 	return hit == nil, true
+}
+
+// directSites: the instructions that themselves perform an effect accepted by pred (a bank or store
+// call; for a helper handed the key or prefix, the call site where the section is resolved) — the
+// barrier / target instructions of rules asked on the flat view.
+func directSites(c *Ctx, pred func(ir.Effect) bool) func(ssa.Instruction) bool {
+	set := map[ssa.Instruction]bool{}
+	for _, e := range c.W.AllEffects(pred) {
+		set[e.Site] = true
+	}
+	return func(in ssa.Instruction) bool { return set[in] }
+}
+
+// genesisFuncs: the functions that exist only for the genesis import (kind INITGEN) or export
+// (EXPORTGEN) of module m: the root itself and, transitively, every function of the module reachable
+// from it all of whose rooted callers are already in the set (InitGenesis proper and whatever helpers
+// it was split into — but not the keeper setters/getters, which run-time code calls too).
+func genesisFuncs(c *Ctx, kind, m string) map[*ssa.Function]bool {
+	w := c.W
+	set := map[*ssa.Function]bool{}
+	roots := w.Roots[kind+":"+m]
+	for _, r := range roots {
+		set[r] = true
+	}
+	reach := w.Reachable(roots)
+	for changed := true; changed; {
+		changed = false
+		for f := range reach {
+			if set[f] || w.IsGenerated(f) || ir.ModuleOf(f) != m {
+				continue
+			}
+			n, all := 0, true
+			for _, ed := range w.Callers(f) {
+				if !c.Rooted(ed.From) && !set[ed.From] {
+					continue
+				}
+				n++
+				if !set[ed.From] {
+					all = false
+				}
+			}
+			if n > 0 && all {
+				set[f] = true
+				changed = true
+			}
+		}
+	}
+	return set
 }
